@@ -50,7 +50,9 @@ var nontrivialRules = map[string]func(st map[string]int, val interface{}, err er
 		}
 		return false
 	},
-	"C10": func(st map[string]int, val interface{}, err error) bool { return st["call.error"] > 0 || st["byexpr.badkey"] > 0 || st["byexpr.mixedkey"] > 0 },
+	"C10": func(st map[string]int, val interface{}, err error) bool {
+		return st["call.error"] > 0 || st["byexpr.badkey"] > 0 || st["byexpr.mixedkey"] > 0
+	},
 	"C11": func(st map[string]int, val interface{}, err error) bool { return err != nil },
 	"C03": func(st map[string]int, val interface{}, err error) bool { return false },
 	"C05": func(st map[string]int, val interface{}, err error) bool { return true },
@@ -147,6 +149,21 @@ func predDiff(c Case) (r Result) {
 	if werr == nil {
 		r.class("result." + ref.TypeName(want))
 	}
+	if (c.Property == "C13" || c.Property == "C12") && werr == nil && three.Compiled && !hasBag(want) {
+		// the reuse properties demand more than agreement with the specification: where the
+		// specification leaves the text of a value open (to_string of a number), every use of
+		// the expression must still give the same answer as the one-shot Search
+		if a, b := show(one.Val), show(three.Val); a != b {
+			r.Violation = "a compiled expression that was used on other documents before returns a different value than the one-shot Search"
+			r.Expected, r.Got = a, b
+			return
+		}
+		if a, b := show(one.Val), show(two.Val); a != b {
+			r.Violation = "a freshly compiled expression returns a different value than the one-shot Search"
+			r.Expected, r.Got = a, b
+			return
+		}
+	}
 	return
 }
 
@@ -155,3 +172,26 @@ func caseDiff(prop, expr string, doc interface{}) Case {
 }
 
 func describe(c Case) string { return fmt.Sprintf("%s on %s", c.Expr, c.Doc) }
+
+// hasBag: the value contains a list whose order the specification leaves open.
+func hasBag(v interface{}) bool {
+	switch t := v.(type) {
+	case ref.Bag:
+		return true
+	case ref.TextOf:
+		return hasBag(t.V)
+	case []interface{}:
+		for _, e := range t {
+			if hasBag(e) {
+				return true
+			}
+		}
+	case map[string]interface{}:
+		for _, e := range t {
+			if hasBag(e) {
+				return true
+			}
+		}
+	}
+	return false
+}
